@@ -20,7 +20,7 @@ META = {
             "code on every run. Every run validates gen_rule/gen_skip/built-ins structurally against the parser the REAL generator emits "
             "for thousands of generated grammars (both feature sets), and compiles a batch of derive-generated parsers which it runs "
             "against the real pest_vm and against both extracted models on all inputs up to a length bound."
-            " When the translation validation finds a structural difference and no behavioural one, an escalated search pinpoints the differing construct (CULPRIT), builds grammars around it (1-4 pushes of different literals, predicates, choices, repetitions, trivia) and runs the real derived parser against the real pest_vm on them; its hit is the replay.",
+            " When the translation validation finds a structural difference and no behavioural one, an escalated search pinpoints the differing construct (CULPRIT), builds grammars around it (1-4 pushes of different literals, predicates, choices, repetitions, trivia; the construct and its variants whose leaves pop / drop / peek - operations that change the stack before they can fail - as the whole operand of ?, *, | and predicates followed by stack readers) and runs the real derived parser against the real pest_vm on them; its hit is the replay.",
     "note": "Trusted: Coq kernel; extraction; the syn-based reader of the emitted code (strict: unknown shapes are errors) and the runner; "
             "VmCompile.v as the model of vm/src/lib.rs and Exec.v as the model of parser_state.rs (tied to the code by the batch runs here and "
             "by C01/C03); rustc for the compiled batch. The call limit is outside the statement: the back-ends count different calls, and the "
@@ -48,12 +48,13 @@ def scratch(name, features):
     return "/tmp/pvharness-%s-%s%s" % (tag, name, suffix), "/tmp/pvtarget-%s-%s%s" % (tag, name, suffix)
 
 
-def build_batch(hbin, count, seed, features, name="c02batch", gfile=None, timeout=1500, lit=False, around=False):
+def build_batch(hbin, count, seed, features, name="c02batch", gfile=None, timeout=1500, lit=False, around=False, full=False):
     """Generate the batch program with `c02 batch`, build it against the repository (path dependencies: cargo rebuilds when the
     repository changes); returns (rc, log, exe)."""
     d, tdir = scratch(name, features)
     os.makedirs(os.path.join(d, "src"), exist_ok=True)
-    rc, src = sh("%s batch %d %d %s %s" % (hbin, count, seed, shlex.quote(gfile) if gfile else "", "around" if around else ("lit" if lit else "")), timeout=600)
+    rc, src = sh("%s batch %d %d %s %s %s" % (hbin, count, seed, shlex.quote(gfile) if gfile else "-", "around" if around else ("lit" if lit else "-"),
+                                             "full" if full else "-"), timeout=600)
     if rc != 0 or "fn run_all" not in src:
         return 1, "c02 batch failed:\n" + src[-2000:], ""
     write_if_changed(os.path.join(d, "src", "main.rs"), src)
@@ -79,15 +80,22 @@ def pick_culprits(culprits, feat, limit=4):
     one entry per (kind, construct, atomic / non-atomic rule)."""
     pool = [c for c in culprits if c["x"] == ("1" if feat else "0")]
     pool.sort(key=lambda c: (c["h"] != "0", {"expr": 0, "builtin": 1, "rule": 2, "trivia": 3, "skip": 4}.get(c["kind"], 5), len(c["construct"]), len(c["grammar"])))
+    def shape(c):
+        """the construct with its literals and rule names abstracted (PUSH("x") and PUSH(r2) are one shape): distinct shapes first"""
+        t = re.sub(r'"(?:[^"\\]|\\.)*"', "L", c["construct"])
+        t = re.sub(r"'(?:[^'\\]|\\.)+'\.\.'(?:[^'\\]|\\.)+'", "L", t)
+        return re.sub(r"\b(?!PUSH\b|PEEK\b|PEEK_ALL\b|POP\b|POP_ALL\b|DROP\b|L\b)[A-Za-z_][A-Za-z0-9_]*", "I", t)
     out, seen = [], set()
-    for c in pool:
-        key = (c["kind"], c["construct"] if c["kind"] in ("expr", "builtin") else c["what"].split(" ")[-1] + c["ty"], c["ty"] in ("a", "c"))
-        if key in seen:
-            continue
-        seen.add(key)
-        out.append(c)
-        if len(out) >= limit:
-            break
+    for by_shape in (True, False):
+        for c in pool:
+            what = (shape(c) if by_shape else c["construct"]) if c["kind"] in ("expr", "builtin") else c["what"].split(" ")[-1] + c["ty"]
+            key = (by_shape, c["kind"], what, c["ty"] in ("a", "c"))
+            if key in seen or c in out:
+                continue
+            seen.add(key)
+            out.append(c)
+            if len(out) >= limit:
+                return out
     return out
 
 
@@ -177,9 +185,9 @@ def run(tier, seed, replay=None):
     for feat in ("", "extras"):
         for i in range(nseeds):
             cmds.append("%s tv %d %d %s | %s" % (builds[feat], ntv, seed * 100 + i, "" if i == 0 else "nofixed", runner))
-    batches = {}
+    batches, families = {}, {}
     for feat, nb in (("", nbatch), ("extras", nbatch_x)):
-        brc, bout, exe = build_batch(builds[feat], nb, seed, feat)
+        brc, bout, exe = build_batch(builds[feat], nb, seed, feat, full=(tier != "quick"))
         if brc != 0:
             res.violation("the batch of derive-generated parsers does not compile%s" % (" (grammar-extras)" if feat else ""),
                           {"theorem_or_correspondence": "C02 behavioural batch (build)", "log": bout[-3000:]}, no_failing_input=True)
@@ -187,6 +195,8 @@ def run(tier, seed, replay=None):
         rc, info = sh("grep -c '^mod g' %s" % os.path.join(scratch("c02batch", feat)[0], "src", "main.rs"))
         total = int(info.strip() or "0")
         batches[feat] = total
+        rc, fam = sh("grep -m1 '^// FAMILIES' %s" % os.path.join(scratch("c02batch", feat)[0], "src", "main.rs"))
+        families[feat or "default"] = {k: int(v) for k, v in re.findall(r"(\w+)=(\d+)", fam)}
         chunks = max(1, min(NPROC, total // 3))
         step = (total + chunks - 1) // chunks
         ml = maxlen if not feat else maxlen_x
@@ -359,8 +369,14 @@ def run(tier, seed, replay=None):
         "rule": "structural: generated grammars (2-4 rules + WHITESPACE/COMMENT of every modifier, all built-ins, 5 Unicode properties, stack operations, "
                 "user rules named like built-ins, node tags / PUSH_LITERAL with grammar-extras) accepted by the real pest_meta, each read back from the real "
                 "derive_parser output - one evaluation = one grammar, non-trivial = some emitted function larger than 6 nodes; behavioural: witnesses + "
-                "11 probe grammars + generated grammars compiled with #[derive(Parser)], every rule on all inputs over {x, y, space, 5} up to length "
-                "%d (%d with grammar-extras) - one evaluation = one (grammar, rule, input), non-trivial = a parse producing tokens or failing past position 0" % (maxlen, maxlen_x),
+                "16 probe grammars + generated grammars compiled with #[derive(Parser)], every rule on all inputs over {x, y, space, 5} up to length "
+                "%d (%d with grammar-extras); the per-built-in differential; the restore-on-error differential (every stack-changing operand - POP, POP_ALL, "
+                "PUSH(POP), PUSH(rule that pops), DROP, .. - as the whole operand of ?, *, either side of |, below two unequal entries, followed by stack "
+                "readers, normal and atomic rules; random members of the family in the generated stream); the shadowing differential (for each of the 11 "
+                "non-keyword built-ins and 5 Unicode properties one grammar that defines the name differently - narrower with a token / disjoint and silent, "
+                "alternating with the seed in the quick tier, both in the thorough one - and has one rule per OTHER built-in, on all strings up to length 2 "
+                "over the boundaries of every ASCII class, CR, LF, blank, +, e-acute and the grammar's literals) "
+                "- one evaluation = one (grammar, rule, input), non-trivial = a parse producing tokens or failing past position 0" % (maxlen, maxlen_x),
         "exhaustive": True,
         "exhaustive_bound": "inputs: all strings over a 4-letter alphabet up to length %d per grammar and rule; grammars: sampled (the theorem is unbounded)" % maxlen,
         "samples": ["r0 = @{ \"x\"* ~ \"y\" } WHITESPACE = _{ \" \" }", "r0 = { \"x\" ~ \"y\" } WHITESPACE = { \" \" | \"5 \" } COMMENT = { \"5\" }",
@@ -371,6 +387,7 @@ def run(tier, seed, replay=None):
         "classes_outside_H": {k: stats.get(k, 0) for k in ("ws_nonatomic", "node_tag", "dirty_atomic_rep")},
         "known_classes_seen": sorted(seen_classes.keys()),
         "batch_grammars": batches,
+        "fixed_families_in_batch": families,
         "escalated_search": searches if searches else "not run (no structural difference between emitted code and model)",
     })
     res.assumptions = ["no call limit (limit = None) in the theorem; the batch runs under a limit of 3000 calls and discards cases that touch it",
